@@ -26,7 +26,7 @@ build() { # build <out> [extra go build args...]
 # C19 needs three binaries: plain, instrumented (overlay generated from the working
 # tree by vinstr, tag verifsched) and -race. A failing instrumented build is not a
 # failure of the check: it falls back to the footprint and race passes and says so.
-C19_PKGS="bitmap bmtree bitstr bitword sigbits"
+C19_PKGS="bitmap bmtree bitstr bitword sigbits pbcmpl iohelper"
 c19_builds() {
   local d=$1
   (cd "$H" && go build -o "$d/vinstr" ./cmd/vinstr) || { echo "check.sh: vinstr build failed" >&2; exit 2; }
@@ -40,7 +40,7 @@ c19_builds() {
     export VERIF_SCHED_ERR="$(tail -c 300 "$d/vinstr.log" "$d/sched-build.log" 2>/dev/null | tr '\n' ' ')"
     echo "check.sh: instrumented build unavailable, falling back to footprint + race passes" >&2
   fi
-  if build "$d/vcheck.race" -race 2>"$d/race-build.log"; then
+  if [ -z "${C19_NO_RACE:-}" ] && build "$d/vcheck.race" -race 2>"$d/race-build.log"; then
     export VERIF_RACE_BIN="$d/vcheck.race"
   fi
 }
@@ -109,6 +109,9 @@ case "$cmd" in
     if grep -q '"property": "C19"' "$2" 2>/dev/null; then
       mkdir -p "$bin.d"; c19_builds "$bin.d"
     fi
+    if grep -q '"property": "C06"' "$2" 2>/dev/null && grep -q '"kind": "schedule"' "$2" 2>/dev/null; then
+      mkdir -p "$bin.d"; C19_NO_RACE=1 c19_builds "$bin.d"
+    fi
     "$bin" -replay "$2"; rc=$?
     rm -rf "$bin" "$bin.debug" "$bin.d"; exit $rc ;;
   "") echo "usage: check.sh <id> [quick|thorough] | replay <file> | setup" >&2; exit 2 ;;
@@ -125,6 +128,9 @@ case "$TAGDEBUG_PROPS" in *" $id "*) tagdebug_build "$D/vcheck.tagdebug" ;; esac
 case "$id" in
   C19)
     c19_builds "$D" ;;
+  C06)
+    # the scheduled part of C06 runs in the instrumented binary (no -race pass here)
+    C19_NO_RACE=1 c19_builds "$D" ;;
   C03)
     # second configuration: the same harness with the openacid/must contracts compiled in
     build "$D/vcheck.debug" -tags debug || exit 2
